@@ -1,7 +1,7 @@
 (* C06 — Grapheme, word and line boundaries follow UAX #29 / UAX #14 for every string.
    Property theorems only.  Model: Model/Segmenter.v (tied to segmenter/*.go by the correspondence check);
    specifications: Spec/UAX29.v, Spec/UAX14.v. *)
-From TV Require Import Model.Segmenter Spec.UAX29 Spec.UAX14 Proofs.SegCommon Proofs.SegG Proofs.SegL Proofs.SegIter.
+From TV Require Import Model.Segmenter Spec.UAX29 Spec.UAX14 Proofs.SegCommon Proofs.SegG Proofs.SegL Proofs.SegW Proofs.SegIter.
 Open Scope Z_scope.
 
 (* Init is total: for every rune string the attribute computation neither panics (the write-back index of
@@ -29,6 +29,15 @@ Theorem line_attrs_eq_spec_partial : forall text,
 Proof. exact line_lemma. Qed.
 Print Assumptions line_attrs_eq_spec_partial.
 
+(* word boundaries are exactly those of UAX #29 (WB1–WB999 over the library's merged classes), for every string:
+   the single left-to-right pass with its write-back (WB6, WB7b, WB12 amend the boundary before the previous
+   significant rune) equals the rule table that looks ahead past Extend|Format|ZWJ *)
+Theorem word_attrs_eq_spec : forall text,
+  forallb obs_wf_w text = true ->
+  exists attrs, compute_attrs text = Ok attrs /\ map a_word attrs = wb_spec text.
+Proof. exact word_lemma. Qed.
+Print Assumptions word_attrs_eq_spec.
+
 (* results do not depend on what the Segmenter object processed before *)
 Theorem init_history_independent : forall s paragraph, seg_init s paragraph = seg_init seg_zero paragraph.
 Proof. exact seg_init_fresh. Qed.
@@ -47,6 +56,15 @@ Example wf_example :
   let zwj := mkObs LB_ZWJ false false false false true GB_ZWJ WB_ExtendFormat false false true false false in
   let ri := mkObs LB_RI false false false false false GB_RI WB_RI false false false false false in
   forallb obs_wf_g [pic; zwj; pic; ri; ri] = true /\ gb_spec [pic; zwj; pic; ri; ri] = [true; false; false; true; false; true].
+Proof. split; reflexivity. Qed.
+
+Example word_example :
+  let al := mkObs LB_AL false false false false false GB_None WB_ALetter false false false false true in
+  let colon := mkObs LB_IS false false false false false GB_None WB_MidLetter false false false false false in
+  let cm := mkObs LB_CM true false false false false GB_Extend WB_ExtendFormat false false false false false in
+  let sp := mkObs LB_SP false false false false false GB_None WB_WSegSpace false false false false false in
+  let t := [al; colon; cm; al; sp; colon; al] in
+  forallb obs_wf_w t = true /\ wb_spec t = [true; false; false; false; true; true; true; true].
 Proof. split; reflexivity. Qed.
 
 Example line_example :
